@@ -12,7 +12,7 @@ from sim.engine import Result, fp
 import sismic.clock.clock as clockmod
 from sismic.clock import SimulatedClock, SynchronizedClock
 from sismic.interpreter import Interpreter
-from sismic.model import Statechart, CompoundState, BasicState, Transition
+from sismic.model import Statechart, CompoundState, BasicState, FinalState, Transition
 
 ID = 'C14'
 LEVEL = 'exploration'
@@ -59,6 +59,10 @@ def _chart():
     sc.add_state(BasicState('b'), 'root')
     sc.add_transition(Transition('a', 'b', event='e'))
     sc.add_transition(Transition('b', 'a', event='e'))
+    # 'fin' ends the statechart; steps of a final interpreter are steps like any other (they sample the clock)
+    sc.add_state(FinalState('f'), 'root')
+    sc.add_transition(Transition('a', 'f', event='fin'))
+    sc.add_transition(Transition('b', 'f', event='fin'))
     return sc
 
 
@@ -152,8 +156,14 @@ def _run_exact(res, ops, wall, tier):
                 t = arg
                 changed = True
         elif op == 'step':
-            interp.queue('e')
+            if ops.flag(1, 12):
+                interp.queue('fin')
+                res.stats['statechart_driven_to_its_final_state'] += 1
+            else:
+                interp.queue('e')
             ms = interp.execute_once()
+            if interp.final:
+                res.stats['steps_of_a_final_interpreter'] += 1
             last_step_time = t
             if at_start and at_start[-1][0] != at_start[-1][1]:
                 return res.fail('synchronized-clock', "while 'step started' (time=%r) was dispatched the SynchronizedClock read %r" % at_start[-1], trace=trace)
